@@ -1144,7 +1144,23 @@ func (w *_structAssembler) AssembleKey() datamodel.NodeAssembler {
 		schemaType: schemaTypeString,
 		val:        reflect.New(goTypeString).Elem(),
 	}
+	w.curKey.finish = func() error {
+		return w.checkKeyNotRepeated(w.curKey.val.String())
+	}
 	return &w.curKey
+}
+
+// checkKeyNotRepeated refuses a field that has already been assembled, at the moment its key is supplied again.
+// (Names that are not fields at all are reported by AssembleValue.)
+func (w *_structAssembler) checkKeyNotRepeated(name string) error {
+	if w.schemaType.Field(name) == nil {
+		return nil
+	}
+	ftyp, ok := w.val.Type().FieldByName(fieldNameFromSchema(name))
+	if ok && len(ftyp.Index) == 1 && w.doneFields[ftyp.Index[0]] {
+		return datamodel.ErrRepeatedMapKey{Key: basicnode.NewString(name)}
+	}
+	return nil
 }
 
 func (w *_structAssembler) AssembleValue() datamodel.NodeAssembler {
@@ -1261,6 +1277,13 @@ func (w *_mapAssembler) AssembleKey() datamodel.NodeAssembler {
 		cfg:        w.cfg,
 		schemaType: w.schemaType.KeyType(),
 		val:        reflect.New(w.valuesVal.Type().Key()).Elem(),
+	}
+	w.curKey.finish = func() error {
+		// A key may be given once: refuse it when it is supplied again (for a struct key: when it is finished).
+		if w.valuesVal.MapIndex(w.curKey.val).IsValid() {
+			return datamodel.ErrRepeatedMapKey{Key: &_node{cfg: w.cfg, schemaType: w.schemaType.KeyType(), val: w.curKey.val}}
+		}
+		return nil
 	}
 	return &w.curKey
 }
